@@ -7,8 +7,8 @@
    [lastn n l] = the last n entries;  [hist N evs] = (data stamps, stale) where stale is set by a heartbeat that
    finds a stamp seen and the silence > 0.5 s, and cleared by the next data stamp (spelled out by C17_stale_iff). *)
 From Coq Require Import Reals ZArith List Bool Lra Lia.
-From Romea Require Import Num NumR DiagModel RateModel RateProofs.
-From Romea.gen Require Import RepoConstants.
+From Romea Require Import Num NumR DiagModel RateModel RateProofs SrcTieC17 GridMapFloat RateFloat RateFloatHistory.
+From Romea.gen Require Import RepoConstants SrcRate.
 Import ListNotations.
 Local Open Scope Z_scope.
 
@@ -158,3 +158,138 @@ Example C17_ex_stale : snd (hist ROps (ex_evs ++ [Heartbeat 5600000000])) = true
 Proof.
   apply C17_stale_iff. exists ex_evs, 5600000000%Z, []. repeat split; discriminate.
 Qed.
+
+(* ====================================================================================================================
+   SYNTACTIC SOURCE TIE.  gen/SrcRate.v is regenerated on every run by translate/tr_C17_rate.py from the clang AST of the
+   current Time.hpp / RateMonitoring.cpp / CheckupRate.cpp; the functions the theorems above are about ARE those generated
+   terms, for every numeric dictionary (SrcTieC17.v).  A generated transformer takes the parameters, then the fields it
+   reads (by name), and returns the fields it writes (by name) and then the returned value.
+   ==================================================================================================================== *)
+Local Open Scope Z_scope.
+
+Theorem C17_source_tie_durations : forall T (N : NumOps T) d,
+  src_durationToNanoSecond d = d /\ src_durationToSecond N d = duration_to_second N d.
+Proof. intros. split; reflexivity. Qed.
+
+(* initialize: windowSize_ = min(max(static_cast<size_t>(2 * expectedRate), MINIMAL), MAXIMAL) *)
+Theorem C17_source_tie_initialize : forall T (N : NumOps T) r, src_rm_initialize N r = window_size N r.
+Proof. exact @tie_initialize. Qed.
+Print Assumptions C17_source_tie_initialize.
+
+(* update: arguments = duration, lastDuration_, periodsSum_, periods_, rate_, windowSize_;
+   result = (lastDuration_, lastPeriod_, periodsSum_, periods_, rate_, returned value).  lastPeriod_ is read by no method. *)
+Theorem C17_source_tie_update : forall T (N : NumOps T) (s : rmon) d,
+  let '(last, lastPeriod, sum, periods, rate, ret) :=
+    src_rm_update N d (rm_last s) (rm_sum s) (rm_periods s) (rm_rate s) (rm_window s) in
+  {| rm_window := rm_window s; rm_last := last; rm_periods := periods; rm_sum := sum; rm_rate := rate |} = rm_update N s d
+  /\ ret = rm_rate (rm_update N s d) /\ lastPeriod = d - rm_last s.
+Proof. exact @tie_update. Qed.
+Print Assumptions C17_source_tie_update.
+
+(* timeout: arguments = duration, lastDuration_, periods_, rate_; result = (rate_, returned value) *)
+Theorem C17_source_tie_timeout : forall T (N : NumOps T) (s : rmon) d,
+  (let '(rate, fired) := src_rm_timeout N d (rm_last s) (rm_periods s) (rm_rate s) in
+   ({| rm_window := rm_window s; rm_last := rm_last s; rm_periods := rm_periods s; rm_sum := rm_sum s; rm_rate := rate |}, fired))
+  = rm_timeout N s d.
+Proof. exact @tie_timeout. Qed.
+Print Assumptions C17_source_tie_timeout.
+
+Theorem C17_source_tie_getRate : forall T (s : rmon (T:=T)), src_rm_getRate (rm_rate s) = rm_rate s.
+Proof. exact @tie_getRate. Qed.
+
+(* CheckupRate<CheckupType>: the member objects are abstract in the generated terms; instantiated with the monitor's and
+   the check-up's transformers (themselves tied above and by the C18 source-tie theorems), they are the model's functions *)
+Theorem C17_source_tie_checkup_evaluate : forall T (N : NumOps T) (c : crate) stamp,
+  (let '(chk, mon, st) := src_cr_evaluate_equal checkup rmon (eval_equal_to N) (mon_update N) stamp (cr_chk c) (cr_mon c) in
+   ({| cr_mon := mon; cr_chk := chk |}, st)) = cr_evaluate N KEqual c stamp /\
+  (let '(chk, mon, st) := src_cr_evaluate_greater checkup rmon (eval_greater_than N) (mon_update N) stamp (cr_chk c) (cr_mon c) in
+   ({| cr_mon := mon; cr_chk := chk |}, st)) = cr_evaluate N KGreater c stamp.
+Proof. intros. split. - apply tie_cr_evaluate_equal. - apply tie_cr_evaluate_greater. Qed.
+Print Assumptions C17_source_tie_checkup_evaluate.
+
+(* the monitor's update as a member-object method: the generated update packed into the record *)
+Theorem C17_source_tie_monitor_method : forall T (N : NumOps T) (m : rmon) d,
+  (let '(last, _, sum, periods, rate, ret) :=
+     src_rm_update N d (rm_last m) (rm_sum m) (rm_periods m) (rm_rate m) (rm_window m) in
+   ({| rm_window := rm_window m; rm_last := last; rm_periods := periods; rm_sum := sum; rm_rate := rate |}, ret))
+  = mon_update N m d.
+Proof. exact @tie_mon_update. Qed.
+
+Theorem C17_source_tie_heartbeat : forall T (N : NumOps T) (c : crate) stamp,
+  (let '(chk, mon, alive) := src_cr_heartbeat_equal checkup rmon checkup_timeout (rm_timeout N) stamp (cr_chk c) (cr_mon c) in
+   ({| cr_mon := mon; cr_chk := chk |}, alive)) = cr_heartbeat N c stamp /\
+  (let '(chk, mon, alive) := src_cr_heartbeat_greater checkup rmon checkup_timeout (rm_timeout N) stamp (cr_chk c) (cr_mon c) in
+   ({| cr_mon := mon; cr_chk := chk |}, alive)) = cr_heartbeat N c stamp.
+Proof. intros. split. - apply tie_cr_heartbeat_equal. - apply tie_cr_heartbeat_greater. Qed.
+Print Assumptions C17_source_tie_heartbeat.
+
+Theorem C17_source_tie_getReport : forall T (c : crate (T:=T)),
+  src_cr_getReport_equal checkup chk_getReport (cr_chk c) = (cr_chk c, c_report (cr_chk c)) /\
+  src_cr_getReport_greater checkup chk_getReport (cr_chk c) = (cr_chk c, c_report (cr_chk c)).
+Proof. exact @tie_cr_getReport. Qed.
+
+(* ====================================================================================================================
+   BINARY64.  The same model at the rounded dictionary B64Ops (GridMapFloat.v: every C++ double operation is the real
+   operation followed by one rounding to nearest-even in FLT(-1074, 53)); by the source tie (every dictionary) this is
+   also the generated term at B64Ops.  Stamps, periods and the running sum are integers: only 1e9 / (sum / double(W)),
+   2 * expectedRate and count / 1e9 > 0.5 are computed in double.
+   ==================================================================================================================== *)
+Local Open Scope R_scope.
+
+(* integer sum below 2^53 ns (104 days), W in [4, 64]: two roundings, relative error at most 3 * 2^-53 *)
+Theorem C17_rate_binary64_rel_error : forall sum w, (0 < sum < 2 ^ 53)%Z -> (4 <= w <= 64)%Z ->
+  rate_of_sum B64Ops sum w = rnd64 (1000000000 / rnd64 (IZR sum / IZR w)) /\
+  (exists d, Rabs d <= 3 * Raux.bpow Zaux.radix2 (-53) /\ rate_of_sum B64Ops sum w = (IZR w * 1000000000 / IZR sum) * (1 + d)) /\
+  Rabs (rate_of_sum B64Ops sum w - IZR w * 1000000000 / IZR sum) <= 3 * Raux.bpow Zaux.radix2 (-53) * (IZR w * 1000000000 / IZR sum).
+Proof.
+  intros sum w Hs Hw. exact (conj (rate_b64_unfold sum w Hs Hw) (conj (rate_b64_rel_error sum w Hs Hw) (rate_b64_abs_error sum w Hs Hw))).
+Qed.
+Print Assumptions C17_rate_binary64_rel_error.
+
+(* W a power of two (4, 8, 16, 32, 64): sum / W is exact, the rate is the CORRECTLY ROUNDED W * 1e9 / sum (one rounding,
+   relative error 2^-53), and exactly that quotient when it is a double *)
+Theorem C17_rate_binary64_pow2_window : forall sum w, (0 < sum < 2 ^ 53)%Z -> (exists k, (2 <= k <= 6)%Z /\ w = (2 ^ k)%Z) ->
+  rate_of_sum B64Ops sum w = rnd64 (IZR w * 1000000000 / IZR sum) /\
+  (exists d, Rabs d <= Raux.bpow Zaux.radix2 (-53) /\ rate_of_sum B64Ops sum w = (IZR w * 1000000000 / IZR sum) * (1 + d)) /\
+  (b64 (IZR w * 1000000000 / IZR sum) -> rate_of_sum B64Ops sum w = IZR w * 1000000000 / IZR sum).
+Proof.
+  intros sum w Hs Hw. exact (conj (rate_b64_pow2_window sum w Hs Hw) (conj (rate_b64_pow2_rel_error sum w Hs Hw) (rate_b64_exact sum w Hs Hw))).
+Qed.
+Print Assumptions C17_rate_binary64_pow2_window.
+
+(* the window size and the time-out test are EXACT in binary64 *)
+Theorem C17_rate_binary64_window_exact : forall r, b64 r -> window_size B64Ops r = window_size ROps r.
+Proof. exact window_b64_eq_real. Qed.
+
+Theorem C17_rate_binary64_timeout_exact : forall (s : rmon (T:=R)) t, (Z.abs (t - rm_last s) < 2 ^ 53)%Z ->
+  rm_timeout B64Ops s t = rm_timeout ROps s t /\
+  snd (rm_timeout B64Ops s t) = negb (is_nil (rm_periods s)) && (500000000 <? t - rm_last s)%Z.
+Proof. intros s t H. exact (conj (timeout_b64_eq_real s t H) (timeout_b64_rule s t H)). Qed.
+Print Assumptions C17_rate_binary64_timeout_exact.
+
+(* end to end: the double published after ANY history (strictly increasing stamps, more than W of them, no time-out
+   pending, window span below 2^53 ns) is W / (span in seconds) up to 3 * 2^-53 relative *)
+Theorem C17_rate_binary64_after_history : forall r evs,
+  let W := window_size B64Ops r in let ds := data_stamps evs in
+  increasing ds -> (W < Z.of_nat (length ds))%Z -> snd (hist B64Ops evs) = false ->
+  let span := (last ds 0 - nth (length ds - Z.to_nat W - 1) ds 0)%Z in
+  (span < 2 ^ 53)%Z ->
+  (0 < span)%Z /\
+  exists d, Rabs d <= 3 * Raux.bpow Zaux.radix2 (-53) /\
+            rm_rate (rm_run B64Ops (rm_init B64Ops r) evs) = IZR W / (IZR span / 1000000000) * (1 + d).
+Proof. exact rate_b64_history. Qed.
+Print Assumptions C17_rate_binary64_after_history.
+
+Theorem C17_rate_binary64_after_history_pow2 : forall r evs,
+  let W := window_size B64Ops r in let ds := data_stamps evs in
+  increasing ds -> (W < Z.of_nat (length ds))%Z -> snd (hist B64Ops evs) = false ->
+  let span := (last ds 0 - nth (length ds - Z.to_nat W - 1) ds 0)%Z in
+  (span < 2 ^ 53)%Z -> (exists k, (2 <= k <= 6)%Z /\ W = (2 ^ k)%Z) ->
+  rm_rate (rm_run B64Ops (rm_init B64Ops r) evs) = rnd64 (IZR W / (IZR span / 1000000000)).
+Proof. exact rate_b64_history_pow2. Qed.
+
+(* non-vacuity in binary64: the 1 Hz history above publishes exactly 1; 0.4 s window of 4 periods publishes exactly 10 *)
+Example C17_ex_binary64_rate : rm_rate (rm_run B64Ops (rm_init B64Ops 1) ex_evs) = 1.
+Proof. exact ex_rate64. Qed.
+Example C17_ex_binary64_values : rate_of_sum B64Ops 4000000000 4 = 1 /\ rate_of_sum B64Ops 400000000 4 = 10.
+Proof. exact (conj rate_b64_4s_window4 rate_b64_400ms_window4). Qed.
